@@ -40,6 +40,7 @@ pub fn chunk_programs(seed: u64) -> Vec<Vec<Sym>> {
             v
         },
         vec![Sym::L(0x41), Sym::L(0x41), Sym::L(0x42), Sym::R(0, 2)],
+        vec![Sym::L(0x31), Sym::L(0x32), Sym::L(0x33), Sym::M(3, 4)],
     ]
 }
 
